@@ -199,7 +199,10 @@ pub fn reg_event(uid: Uid, call: RegCall, ok: bool, injected: bool) {
         let in_dispatch = w.in_dispatch;
         let s = &mut w.srcs[uid];
         s.reg_calls[call as usize] += 1;
-        s.reg_window.push((call, ok));
+        if ctx == RegCtx::Post(uid) {
+            // only calls the loop makes on its own after the source's event processing belong to the window
+            s.reg_window.push((call, ok));
+        }
         match call {
             RegCall::Register | RegCall::Reregister if ok => s.registered = true,
             RegCall::Unregister => s.registered = false,
